@@ -30,7 +30,11 @@ HARNESS = ("c01_lanewords", ["c01_lanewords.c", "c01_lanewords_wb.c"])
 IMPORTS = ["Word", "Gen_consts", "Gen_fields", "Gen_dqstate", "LaneWords"]
 COQ_DEPS = ["Model/LaneWords.vo"]
 M64 = (1 << 64) - 1
-EXHAUSTIVE_BUDGET_S = 150     # complete search over `owned` for the cases the proposals miss: seconds per run
+EXHAUSTIVE_BUDGET_S = 150     # complete search over `owned`: stops after this many seconds, but only once a case is CONFIRMED to have no parameters
+RUN_TIMEOUT_S = 300           # one recording run; COQ_TIMEOUT_S one coqc evaluation: on expiry repeated once, alone, LOAD_RETRY_FACTOR times longer
+COQ_TIMEOUT_S = 900
+LOAD_RETRY_FACTOR = 10
+REPLAY_RUNS = 5
 RMW_KINDS = (6, 7, 8, 9, 10)       # add sub and or xor (hook numbering); 5 = weak compare-and-swap; 1 = load
 KIND_NAME = {1: "load", 2: "store", 3: "xchg", 4: "cas", 5: "casw", 6: "add", 7: "sub", 8: "and", 9: "or", 10: "xor"}
 
@@ -363,25 +367,41 @@ def zl(xs):
     return "[" + "; ".join(str(x) for x in xs) + "]"
 
 
-def evaluate(name, cases, chunk=4000, timeout=900):
-    """cases: list of (coq call text without parameters, parameter axes as tuple of tuples); returns verdicts"""
+class CoqUnavailable(Exception):
+    """a Coq evaluation could not be completed (time limit or non-zero exit), also not when repeated alone"""
+
+
+def _eval_once(name, part, timeout):
+    sets, body = {}, []
+    for _, cand in part:
+        if cand not in sets:
+            sets[cand] = "cs%d" % len(sets)
+            body.append("Definition %s : list axis := [%s]." % (sets[cand], "; ".join(v if isinstance(v, str) else "Lit " + zl(v) for v in cand)))
+    body.append("Eval vm_compute in [%s]." % ";\n ".join("%s %s" % (call, sets[cand]) for call, cand in part))
+    t0 = _now()
+    ok, vals, raw = driver.coq_eval(name, IMPORTS, "\n".join(body) + "\n", timeout=timeout)
+    common.log("lanewords: %s: %d cases, %d parameter sets, %.1fs" % (name, len(part), len(sets), _now() - t0))
+    if not ok or len(vals) != 1:
+        return None, raw[-1500:]
+    xs = driver.ints(vals[0])
+    if len(xs) != len(part):
+        return None, "Coq returned %d verdicts for %d cases: %s" % (len(xs), len(part), raw[-600:])
+    return xs, ""
+
+
+def evaluate(name, cases, chunk=4000, timeout=COQ_TIMEOUT_S):
+    """cases: list of (coq call text without parameters, parameter axes as tuple of tuples/strings); returns verdicts.
+    A chunk that does not complete is load until shown otherwise: it is repeated ONCE, alone, with ten times the limit; a
+    second failure raises CoqUnavailable (reported as a broken tie, never as a verdict about a transition)"""
     out = []
     for c0 in range(0, len(cases), chunk):
         part = cases[c0:c0 + chunk]
-        sets, body = {}, []
-        for _, cand in part:
-            if cand not in sets:
-                sets[cand] = "cs%d" % len(sets)
-                body.append("Definition %s : list axis := [%s]." % (sets[cand], "; ".join(v if isinstance(v, str) else "Lit " + zl(v) for v in cand)))
-        body.append("Eval vm_compute in [%s]." % ";\n ".join("%s %s" % (call, sets[cand]) for call, cand in part))
-        t0 = _now()
-        ok, vals, raw = driver.coq_eval("%s_%d" % (name, c0), IMPORTS, "\n".join(body) + "\n", timeout=timeout)
-        common.log("lanewords: %s chunk %d: %d cases, %d parameter sets, %.1fs" % (name, c0, len(part), len(sets), _now() - t0))
-        if not ok or len(vals) != 1:
-            raise RuntimeError("Coq evaluation of recorded transitions failed: " + raw[-2000:])
-        xs = driver.ints(vals[0])
-        if len(xs) != len(part):
-            raise RuntimeError("Coq evaluation returned %d verdicts for %d cases" % (len(xs), len(part)))
+        xs, why = _eval_once("%s_%d" % (name, c0), part, timeout)
+        if xs is None:
+            common.log("lanewords: %s chunk %d did not complete (%s): once more, alone, limit x%d" % (name, c0, why[-200:].replace("\n", " "), LOAD_RETRY_FACTOR))
+            xs, why = _eval_once("%s_%d_again" % (name, c0), part, timeout * LOAD_RETRY_FACTOR)
+            if xs is None:
+                raise CoqUnavailable(why)
         out += xs
     return out
 
@@ -392,42 +412,100 @@ def load_table():
         return json.load(fh)
 
 
-def run(ctx, pid=None, scenarios=None):
-    res = {"evaluations": 0, "distinct_nontrivial": 0, "rule": "", "samples": [], "distribution": {}, "mismatches": [], "failures": []}
-    mism = res["mismatches"]
-    ok, out = common.coq_make(COQ_DEPS, timeout=900)
+# ----------------------------------------------------------------------------------------------------------------------
+# one check = prepare (build) / record (run the harness) / judge (segment, chain, Coq) ; replay re-does the recorded unit
+
+def prepare(pid):
+    """(env, None) or (None, mismatch): everything a recording / a judgement needs. File names that two checks running at
+    the same time could both write (harness binary, dumps, Coq case files) carry the property tag and the process id"""
+    tag = "%s_%d" % (pid or "all", os.getpid())
+    ok, out = common.coq_make(COQ_DEPS, timeout=COQ_TIMEOUT_S)
     if not ok:
-        mism.append({"what": "coq/Model/LaneWords.v does not build against the regenerated Gen_dqstate", "detail": out[-1500:]})
-        return res
-    exe, msg = common.build_harness(HARNESS[0], HARNESS[1], whitebox=True, extra=["-I" + common.VERIF + "/harness"])
+        ok, out = common.coq_make(COQ_DEPS, timeout=COQ_TIMEOUT_S * LOAD_RETRY_FACTOR)
+    if not ok:
+        return None, {"kind": "setup", "what": "coq/Model/LaneWords.v does not build against the regenerated Gen_dqstate", "detail": out[-1500:]}
+    exe, msg = common.build_harness(HARNESS[0] + "_" + tag, HARNESS[1], whitebox=True, extra=["-I" + common.VERIF + "/harness"])
     if exe is None:
-        mism.append({"what": "harness build failed", "detail": msg})
-        return res
+        return None, {"kind": "setup", "what": "harness build failed", "detail": msg}
     try:
         table = load_table()
-    except (OSError, ValueError) as e:
-        mism.append({"what": "no site table from src2v (coq/Gen/dqstate_sites.json)", "detail": str(e)})
-        return res
-    sites = table["sites"]
-    file_id = {f: i for i, f in enumerate(table["files"])}
+        sites = table["sites"]
+        env = {"tag": tag, "pid": pid, "exe": exe, "sites": sites, "file_id": {f: i for i, f in enumerate(table["files"])},
+               "loop_ranges": [(x["file"], x["line_lo"], x["line_hi"]) for x in sites if x["kind"] == 5], "unused": unused_params(sites)}
+    except (OSError, ValueError, KeyError) as e:
+        release({"exe": exe})
+        return None, {"kind": "setup", "what": "no usable site table from src2v (coq/Gen/dqstate_sites.json)", "detail": repr(e)}
+    return env, None
 
-    loop_ranges = [(x["file"], x["line_lo"], x["line_hi"]) for x in sites if x["kind"] == 5]
-    unused = unused_params(sites)
+
+def release(env):
+    try:
+        os.remove(env["exe"])
+    except OSError:
+        pass
+
+
+def fail_lines(stdout):
+    return [l for l in (stdout or "").split("\n") if l.startswith("FAIL ")]
+
+
+def record(env, sc, seed, pm, scale):
+    """one run of one scenario in its own process. Outcomes a loaded machine can produce by itself (time limit, the
+    no-progress watchdog, no or a cut-off dump, queues still active when dumped) are not verdicts: the run is repeated ONCE,
+    alone, with ten times the limit, and the second run is the one that is judged; the first is reported as inconclusive"""
+    ddir = os.path.join(common.CACHE, "lanewords")
+    os.makedirs(ddir, exist_ok=True)
+    dp = os.path.join(ddir, "%s-%s-%d-%d.txt" % (env["tag"], sc, seed, pm))
+
+    def once(limit):
+        if os.path.exists(dp):
+            os.remove(dp)
+        r = common.run([env["exe"], str(seed), sc, str(pm), str(scale), dp], timeout=limit)
+        text = None
+        if os.path.exists(dp):
+            with open(dp) as fh:
+                text = fh.read()
+            os.remove(dp)
+        why = None
+        if r.returncode == 124:
+            why = "time limit of %d s" % limit
+        elif r.returncode == 3:
+            why = "watchdog: no progress for 10 s"
+        elif text is None:
+            why = "no dump (rc %s)" % r.returncode
+        elif "\nN " not in text:
+            why = "dump cut off (no N line)"
+        elif any(l.startswith("Q ") and l.split()[-1] == "0" for l in text.split("\n")):
+            why = "a queue was still active when the recording was dumped"
+        return r, text, why
+    r, text, why = once(RUN_TIMEOUT_S)
+    first = None
+    if why is not None and r.returncode not in (4,) and (r.returncode >= 0):
+        first = "%s seed %d perturbation %d: %s; first output: %s" % (sc, seed, pm, why, " | ".join(fail_lines(r.stdout))[:300])
+        common.log("lanewords: %s: once more, alone, limit x%d" % (first[:160], LOAD_RETRY_FACTOR))
+        r, text, why = once(RUN_TIMEOUT_S * LOAD_RETRY_FACTOR)
+    return {"scenario": sc, "seed": seed, "permille": pm, "scale": scale, "rc": r.returncode, "stdout": r.stdout or "", "text": text,
+            "suspect": why, "inconclusive_first_run": first}
+
+
+def _ident(rec):
+    return {"scenario": rec["scenario"], "seed": rec["seed"], "permille": rec["permille"], "scale": rec["scale"]}
+
+
+def judge(env, recs, res):
+    """segment, chain-check and evaluate the recordings; fills res (mismatches / failures / distribution / evaluations).
+    Every mismatch and failure carries `kind` and the scenario / seed / permille / scale of the run that showed it; a
+    transition mismatch also carries the transition itself (site, old, new or give-up operations, parameter axes tried)"""
+    pid, sites, file_id = env["pid"], env["sites"], env["file_id"]
+    mism, fails, dist = res["mismatches"], res["failures"], res["distribution"]
 
     def find(file, line, kind):
         return [s for s in sites if s["file"] == file and s["line_lo"] <= line <= s["line_hi"] and s["kind"] == kind]
-    scen = scenarios or SCEN.get(pid or "", ALL_SCEN)
-    # quick: one seed per scenario (the whole ./check of a property has 3 minutes, shared with the API-level oracle)
-    seeds = [ctx.seed * 100 + i for i in range(1 if ctx.tier == "quick" else 4)]
-    scale = 1 if ctx.tier == "quick" else 3
-    ddir = os.path.join(common.CACHE, "lanewords")
-    os.makedirs(ddir, exist_ok=True)
     cases, keyidx, meta = [], {}, []  # distinct Coq cases; key -> index; per case (index of the `owned` axis, widths, constants)
-    uses = []                         # (case index, what, description) per recorded transition
-    holes, per_fn, nodomain, notes_all = {}, {}, {}, {"open_at_end": 0}
+    uses = []                         # per recorded transition: (case index, function, commit|giveup, text, run index, embedded case)
+    holes, per_fn, nodomain, open_at_end = {}, {}, {}, 0
     chain_problems, chain_stats = [], {"queues": 0, "edges": 0}
-    runs, recorded_total = 0, 0
-
+    recorded_total, judged_runs = 0, 0
     vcache = {}
     DATA_PARAMS = {"owned", "delta", "da_width", "next_owner"}
 
@@ -438,99 +516,114 @@ def run(ctx, pid=None, scenarios=None):
             vcache[k] = axes(s, ctxp)
         return vcache[k]
 
-    def add_case(kindname, s, file, line, kind, old, new, recd, ctxp):
-        vecs, why = cached_vectors(s, ctxp)
-        if vecs is None:
-            nodomain["%s: %s" % (s["coq"], why)] = nodomain.get("%s: %s" % (s["coq"], why), 0) + 1
+    def add_case(ri, kindname, s, file, line, kind, old, new, recd, ctxp):
+        cand, why = cached_vectors(s, ctxp)
+        if cand is None:
+            k = "%s: %s" % (s["coq"], why)
+            nodomain.setdefault(k, [0, ri])[0] += 1
             return
-        cand = vecs
-        if kindname == "commit":
-            call = "check_commit %d %d %d %d %d" % (file_id[file], line, kind, old, new)
-        else:
-            call = "check_giveup %d %d %d %d [%s]" % (file_id[file], line, kind, old, "; ".join("(%d, %d)" % x for x in recd))
+        call = case_call(file_id, kindname, file, line, kind, old, new, recd)
         key = (call, cand)
         if key not in keyidx:
             keyidx[key] = len(cases)
             cases.append(key)
             oi = [i for i, p in enumerate(s["params"]) if p["name"] == "owned"]
             meta.append((oi[0] if oi else None, tuple(ctxp["widths"]), ctxp["K"]))
+        emb = {"kindname": kindname, "file": file, "line": line, "kind": kind, "old": old, "new": new,
+               "recd": [list(x) for x in recd] if recd is not None else None, "params": [p["name"] for p in s["params"]]}
         uses.append((keyidx[key], s["coq"], kindname, "%s:%d %s %d -> %s" % (
-            file, line, kindname, old, new if kindname == "commit" else "left the loop after " + str(recd))))
+            file, line, kindname, old, new if kindname == "commit" else "left the loop after " + str(recd)), ri, emb))
 
-    for sc in scen:
-        for i, seed in enumerate(seeds):
-            pm = [200, 0, 400][i % 3]
-            dp = os.path.join(ddir, "%s-%d.txt" % (sc, seed))
-            if os.path.exists(dp):
-                os.remove(dp)
-            r = common.run([exe, str(seed), sc, str(pm), str(scale), dp], timeout=300)
-            runs += 1
-            if not os.path.exists(dp):
-                mism.append({"what": "recording run produced no dump", "detail": "scenario %s seed %d rc %s: %s" % (
-                    sc, seed, r.returncode, (r.stdout or "")[-300:])})
+    for ri, rec in enumerate(recs):
+        idt = _ident(rec)
+        where = "scenario %s seed %d perturbation %d" % (rec["scenario"], rec["seed"], rec["permille"])
+        if rec["inconclusive_first_run"]:
+            dist.setdefault("inconclusive_first_runs_repeated_alone", []).append(rec["inconclusive_first_run"][:300])
+        # --- the harness's own oracles (its stdout): failures of the property whose scenario set contains the scenario
+        fl = fail_lines(rec["stdout"])
+        for l in fl:
+            f = l.split(" ", 3)
+            what = f[3] if len(f) > 3 else ""
+            key = "%s:words:%s:%s" % (pid, rec["scenario"], re.sub(r"\d+", "N", what)[:60])
+            if not any(x["key"] == key for x in fails):
+                fails.append(dict(idt, kind="oracle", key=key, line=l[:300],
+                                  what="%s (harness/c01_lanewords.c, %s, tagged %s by the harness)" % (what[:240], where, f[1] if len(f) > 1 else "?")))
+        if rec["rc"] not in (0, 1, 3, 4) and rec["rc"] != 124:
+            fails.append(dict(idt, kind="died", key="%s:words:%s:died" % (pid, rec["scenario"]),
+                              what="recording client died (rc %s) in %s: %s" % (rec["rc"], where, rec["stdout"][-200:])))
+        elif rec["rc"] == 124:
+            fails.append(dict(idt, kind="died", key="%s:words:%s:hang" % (pid, rec["scenario"]),
+                              what="recording client did not finish within %d s, twice (the second time alone), in %s" % (RUN_TIMEOUT_S * LOAD_RETRY_FACTOR, where)))
+        elif rec["rc"] in (1, 3, 4) and not fl:
+            mism.append(dict(idt, kind="shape", what="recording client reports failure (rc %s) without a FAIL line" % rec["rc"], detail=where + ": " + rec["stdout"][-300:]))
+        if rec["text"] is None:
+            mism.append(dict(idt, kind="nodump", what="recording run produced no dump", detail="%s rc %s: %s" % (where, rec["rc"], rec["stdout"][-300:])))
+            continue
+        d = Dump(rec["text"])
+        if d.K is None or "\nN " not in rec["text"]:
+            mism.append(dict(idt, kind="nodump", what="dump without constants or cut off", detail=where))
+            continue
+        recorded_total += d.total
+        attempts, giveups, ops, notes = segment(d, env["loop_ranges"])
+        if not d.queues or d.total <= 0 or not (attempts or ops):
+            # floor: a run that recorded nothing (hook compiled out, no queue tracked) ties nothing
+            mism.append(dict(idt, kind="floor", what="recording run recorded no dq_state transition at all",
+                             detail="%s: %d queues, %d atomic operations, %d attempts, %d single operations" % (where, len(d.queues), d.total, len(attempts), len(ops))))
+            continue
+        judged_runs += 1
+        open_at_end += notes["open_at_end"]
+        for k in ("cas_without_load", "narrow_ops", "expected_mismatch"):
+            for x in notes[k]:
+                holes.setdefault("recording: " + x.split(" queue")[0], [0, ri])[0] += 1
+        owners = {e[2] & d.K["OWNER_MASK"] for evs in d.threads.values() for e in evs if e[0] == "E"}
+        cp, cs = chain_check(d, attempts, ops)
+        chain_problems += [(ri, "%s: %s" % (where, x)) for x in cp]
+        chain_stats["queues"] += cs["queues"]
+        chain_stats["edges"] += cs["edges"]
+
+        def pctx(tid, q, old, new=None):
+            return {"K": d.K, "tid": tid, "widths": d.queues[q]["widths"], "owners": owners, "old": old, "new": new, "unused": env["unused"]}
+        for (thr, tid, q, file, line, old, new, okk, cw) in attempts:
+            ss = find(file, line, 5) if file in file_id else []
+            if not ss:
+                holes.setdefault("%s:%d casw" % (file, line), [0, ri])[0] += 1
                 continue
-            if r.returncode not in (0, 1):
-                res["distribution"]["run_rc_%s" % r.returncode] = res["distribution"].get("run_rc_%s" % r.returncode, 0) + 1
-            with open(dp) as fh:
-                d = Dump(fh.read())
-            if d.K is None:
-                mism.append({"what": "dump without constants", "detail": dp})
+            for s in ss:
+                per_fn.setdefault(s["coq"], {"commits": 0, "failed_cas": 0, "giveups": 0})["commits" if okk else "failed_cas"] += 1
+                add_case(ri, "commit", s, file, line, 5, old, new, None, pctx(tid, q, old, new))
+        for (thr, tid, q, file, line, old, recd, cw) in giveups:
+            ss = find(file, line, 5) if file in file_id else []
+            for s in ss:        # none: a plain load, or a loop already counted as a hole through its compare-and-swap
+                per_fn.setdefault(s["coq"], {"commits": 0, "failed_cas": 0, "giveups": 0})["giveups"] += 1
+                add_case(ri, "giveup", s, file, line, 5, old, None, recd, pctx(tid, q, old))
+        for (thr, tid, q, file, line, kind, old, v, new, cw) in ops:
+            ss = find(file, line, kind) if file in file_id else []
+            if not ss:
+                holes.setdefault("%s:%d %s" % (file, line, KIND_NAME[kind]), [0, ri])[0] += 1
                 continue
-            recorded_total += d.total
-            attempts, giveups, ops, notes = segment(d, loop_ranges)
-            notes_all["open_at_end"] += notes["open_at_end"]
-            for k in ("cas_without_load", "narrow_ops", "expected_mismatch"):
-                for x in notes[k]:
-                    holes.setdefault("recording: " + x.split(" queue")[0], 0)
-                    holes["recording: " + x.split(" queue")[0]] += 1
-            owners = {e[2] & d.K["OWNER_MASK"] for evs in d.threads.values() for e in evs if e[0] == "E"}
-            cp, cs = chain_check(d, attempts, ops)
-            chain_problems += ["%s seed %d perturbation %d: %s" % (sc, seed, pm, x) for x in cp]
-            chain_stats["queues"] += cs["queues"]
-            chain_stats["edges"] += cs["edges"]
+            for s in ss:
+                per_fn.setdefault(s["coq"], {"commits": 0, "failed_cas": 0, "giveups": 0})["commits"] += 1
+                add_case(ri, "commit", s, file, line, kind, old, new, None, pctx(tid, q, old, new))
 
-            def pctx(tid, q, old, new=None):
-                return {"K": d.K, "tid": tid, "widths": d.queues[q]["widths"], "owners": owners, "old": old, "new": new, "unused": unused}
-            for (thr, tid, q, file, line, old, new, okk, cw) in attempts:
-                ss = find(file, line, 5) if file in file_id else []
-                if not ss:
-                    holes["%s:%d casw" % (file, line)] = holes.get("%s:%d casw" % (file, line), 0) + 1
-                    continue
-                for s in ss:
-                    c = per_fn.setdefault(s["coq"], {"commits": 0, "failed_cas": 0, "giveups": 0})
-                    c["commits" if okk else "failed_cas"] += 1
-                    add_case("commit", s, file, line, 5, old, new, None, pctx(tid, q, old, new))
-            for (thr, tid, q, file, line, old, recd, cw) in giveups:
-                ss = find(file, line, 5) if file in file_id else []
-                if not ss:
-                    continue        # a plain load, or a loop already counted as a hole through its compare-and-swap
-                for s in ss:
-                    per_fn.setdefault(s["coq"], {"commits": 0, "failed_cas": 0, "giveups": 0})["giveups"] += 1
-                    add_case("giveup", s, file, line, 5, old, None, recd, pctx(tid, q, old))
-            for (thr, tid, q, file, line, kind, old, v, new, cw) in ops:
-                ss = find(file, line, kind) if file in file_id else []
-                if not ss:
-                    k = "%s:%d %s" % (file, line, KIND_NAME[kind])
-                    holes[k] = holes.get(k, 0) + 1
-                    continue
-                for s in ss:
-                    per_fn.setdefault(s["coq"], {"commits": 0, "failed_cas": 0, "giveups": 0})["commits"] += 1
-                    add_case("commit", s, file, line, kind, old, new, None, pctx(tid, q, old, new))
-
-    verdicts = evaluate("lanewords_%s" % (pid or "all"), cases) if cases else []
-    # second pass: a case the proposed parameters do not reproduce is judged again over EVERY admissible value of `owned`
-    # (LaneWords.Owned / ex_owned: searched inside Coq, never written out): what stays unexplained has no admissible parameters at all
-    redo = [i for i, v in enumerate(verdicts) if v == 2 and meta[i][0] is not None]
+    verdicts, unjudged = [], None
+    try:
+        verdicts = evaluate("lanewords_%s" % env["tag"], cases) if cases else []
+    except CoqUnavailable as e:
+        unjudged = str(e)
     skipped = set()
-    if redo:
-        import time as _time
-        t_end = _time.time() + EXHAUSTIVE_BUDGET_S
-        reproduced = 0
-        for c0 in range(0, len(redo), 8):
-            part = redo[c0:c0 + 8]
-            left = t_end - _time.time()
-            if left < 5:
-                skipped.update(redo[c0:])      # out of time: these keep the first pass's verdict, and are labelled so
+    if unjudged is None:
+        # second pass: a case the proposed parameters do not reproduce is judged again over EVERY admissible value of `owned`
+        # (LaneWords.Owned / ex_owned: searched inside Coq, never written out): what stays unexplained has no admissible
+        # parameters at all. A case without admissible parameters costs ~20 s; on the unchanged tree every case is found within
+        # a second or so. The time budget therefore only applies once a case has been CONFIRMED to have none (the check is red
+        # by then); before that, time is load and the search goes on.
+        redo = [i for i, v in enumerate(verdicts) if v == 2 and meta[i][0] is not None]
+        t_end = _now() + EXHAUSTIVE_BUDGET_S
+        reproduced = confirmed = 0
+        for n0 in range(0, len(redo), 8):
+            part = redo[n0:n0 + 8]
+            if confirmed and _now() > t_end:
+                skipped.update(redo[n0:])
                 break
             full = []
             for i in part:
@@ -538,61 +631,191 @@ def run(ctx, pid=None, scenarios=None):
                 oi, widths, K = meta[i]
                 gen = "Owned %d %d %d %d %d %s" % (K["IB"], K["WI"], K["PB"], K["ENQ"], K["ENQ_MGR"], zl(widths))
                 full.append((call, tuple(gen if j == oi else a for j, a in enumerate(cand))))
+                cases[i] = full[-1]          # what is embedded in a mismatch is what was finally tried
             try:
-                second = evaluate("lanewords_%s_full" % (pid or "all"), full, chunk=8, timeout=max(10, int(left)))
-            except RuntimeError:
-                skipped.update(redo[c0:])
+                second = evaluate("lanewords_%s_full%d" % (env["tag"], n0), full, chunk=8, timeout=COQ_TIMEOUT_S)
+            except CoqUnavailable as e:
+                unjudged = str(e)
                 break
             for i, v in zip(part, second):
                 verdicts[i] = v
                 reproduced += (v == 1)
-        res["distribution"]["cases_needing_exhaustive_owned_search"] = len(redo)
-        res["distribution"]["cases_left_to_the_first_pass_verdict"] = len(skipped)
-        res["distribution"]["of_which_reproduced"] = reproduced
+                confirmed += (v != 1)
+        if redo:
+            dist["cases_needing_exhaustive_owned_search"] = len(redo)
+            dist["cases_left_to_the_first_pass_verdict"] = len(skipped)
+            dist["of_which_reproduced"] = reproduced
+    if unjudged is not None:
+        mism.append({"kind": "coq", "what": "Coq evaluation of the recorded transitions could not be completed (twice, the second time alone with "
+                                            "ten times the limit): nothing is concluded about them", "detail": unjudged[-1200:]})
+        uses_judged = []
+    else:
+        uses_judged = uses
     bad = {}
-    for (ci, fn, kindname, text) in uses:
+    for (ci, fn, kindname, text, ri, emb) in uses_judged:
         v = verdicts[ci]
         if v != 1:
             if v == 2 and ci in skipped:
                 v = 20
             why = {0: "no generated function", 2: "the generated function does not produce the recorded result for any admissible parameters",
-                   20: "the generated function does not produce the recorded result for the proposed parameters (the complete search over `owned` "
-                       "ran out of its time budget before this case)",
+                   20: "the generated function does not produce the recorded result for the proposed parameters (other cases of this run were "
+                       "confirmed to have no admissible parameters; the complete search over `owned` stopped at its budget before this one)",
                    4: "a parameter has no admissible value",
                    3: "parameter vectors do not fit the generated function"}.get(v, "verdict %s" % v)
             k = (fn, why)
             if k not in bad:
-                bad[k] = [0, text]
+                ax = cases[ci][1]
+                n_ax = sum(len(a) for a in ax if not isinstance(a, str))
+                bad[k] = [0, text, ri, dict(emb, axes=[a if isinstance(a, str) else list(a) for a in ax] if n_ax <= 1500 else None, verdict=v)]
             bad[k][0] += 1
-    for (fn, why), (n, text) in sorted(bad.items()):
-        mism.append({"what": "word transition of the library differs from Gen_dqstate.%s: %s" % (fn, why),
-                     "detail": "%d recorded transition(s), first: %s" % (n, text)})
-    for k, n in sorted(holes.items()):
-        mism.append({"what": "dq_state read-modify-write without a generated transition function (coverage hole)" if not k.startswith("recording")
-                     else "recording does not have the shape of the atomic macros",
-                     "detail": "%s, %d time(s)" % (k, n)})
-    for k, n in sorted(nodomain.items()):
-        mism.append({"what": "no admissible-value rule for a parameter of a generated function (lib/lanewords.py PARAM rules)",
-                     "detail": "%s, %d transition(s) not judged" % (k, n)})
-    for x in chain_problems[:12]:
-        mism.append({"what": "recorded dq_state changes of a queue do not form one chain from its initial to its final value", "detail": x})
-    never = sorted(s["coq"] for s in sites if s["coq"] not in per_fn)
-    res["evaluations"] = len(uses)
-    res["distinct_nontrivial"] = len(cases)
-    res["samples"] = [u[3] for u in uses[:3]] + [u[3] for u in uses if u[2] == "giveup"][:2]
-    res["distribution"].update({
-        "recording_runs": runs, "atomic_operations_recorded": recorded_total, "transitions_judged": len(uses),
-        "distinct_cases_evaluated_in_coq": len(cases), "chain_queues": chain_stats["queues"], "chain_state_changes": chain_stats["edges"],
-        "loop_instances_still_open_at_dump": notes_all["open_at_end"],
+    for (fn, why), (n, text, ri, emb) in sorted(bad.items()):
+        mism.append(dict(_ident(recs[ri]), kind="transition", fn=fn, case=emb,
+                         what="word transition of the library differs from Gen_dqstate.%s: %s" % (fn, why),
+                         detail="%d recorded transition(s), first (%s seed %d perturbation %d): %s" % (
+                             n, recs[ri]["scenario"], recs[ri]["seed"], recs[ri]["permille"], text)))
+    for k, (n, ri) in sorted(holes.items()):
+        mism.append(dict(_ident(recs[ri]), kind="shape" if k.startswith("recording") else "hole", site=k,
+                         what="dq_state read-modify-write without a generated transition function (coverage hole)" if not k.startswith("recording")
+                         else "recording does not have the shape of the atomic macros",
+                         detail="%s, %d time(s)" % (k, n)))
+    for k, (n, ri) in sorted(nodomain.items()):
+        mism.append(dict(_ident(recs[ri]), kind="nodomain", site=k,
+                         what="no admissible-value rule for a parameter of a generated function (lib/lanewords.py PARAM rules)",
+                         detail="%s, %d transition(s) not judged" % (k, n)))
+    for ri, x in chain_problems[:12]:
+        mism.append(dict(_ident(recs[ri]), kind="chain",
+                         what="recorded dq_state changes of a queue do not form one chain from its initial to its final value", detail=x))
+    res["evaluations"] = len(uses_judged)
+    res["distinct_nontrivial"] = len(cases) if uses_judged else 0
+    res["samples"] = [u[3] for u in uses_judged[:3]] + [u[3] for u in uses_judged if u[2] == "giveup"][:2]
+    dist.update({
+        "recording_runs": len(recs), "recording_runs_judged": judged_runs, "atomic_operations_recorded": recorded_total,
+        "transitions_judged": len(uses_judged), "distinct_cases_evaluated_in_coq": len(cases) if uses_judged else 0,
+        "chain_queues": chain_stats["queues"], "chain_state_changes": chain_stats["edges"],
+        "loop_instances_still_open_at_dump": open_at_end, "harness_fail_lines": sum(len(fail_lines(r["stdout"])) for r in recs),
         "per_function": {k: v for k, v in sorted(per_fn.items())},
-        "generated_functions_never_exercised": never, "coverage_holes": holes})
-    res["rule"] = ("word-transition conformance: scenarios %s of harness/c01_lanewords.c (each in its own process, %d seed(s), perturbation "
-                   "0/20/40 %% of atomic operations); every compare-and-swap attempt, every single atomic operation and every give-up on the "
-                   "dq_state of every queue created is evaluated in Coq on the src2v function registered for its source line "
-                   "(Gen_dqstate.dqstate_site_table, LaneWords.check_commit/check_giveup); unobserved parameters: thread id and queue width exact, "
-                   "others over the finite domains of lib/lanewords.py; per queue the successful operations must chain from the initial to the "
-                   "final value; evaluations = transitions judged, distinct = distinct Coq cases" % (", ".join(scen), len(seeds)))
+        "generated_functions_never_exercised": sorted(s["coq"] for s in sites if s["coq"] not in per_fn),
+        "coverage_holes": {k: v[0] for k, v in holes.items()}})
     return res
+
+
+def case_call(file_id, kindname, file, line, kind, old, new, recd):
+    fid = file_id.get(file, -1)
+    if kindname == "commit":
+        return "check_commit %d %d %d %d %d" % (fid, line, kind, old, new)
+    return "check_giveup %d %d %d %d [%s]" % (fid, line, kind, old, "; ".join("(%d, %d)" % tuple(x) for x in recd))
+
+
+def plan(ctx, pid, scenarios=None):
+    scen = scenarios or SCEN.get(pid or "", ALL_SCEN)
+    # quick: one seed per scenario (the whole ./check of a property has 3 minutes, shared with the API-level oracle)
+    seeds = [ctx.seed * 100 + i for i in range(1 if ctx.tier == "quick" else 4)]
+    scale = 1 if ctx.tier == "quick" else 3
+    return scen, [(sc, seed, [200, 0, 400][i % 3], scale) for sc in scen for i, seed in enumerate(seeds)]
+
+
+def run(ctx, pid=None, scenarios=None):
+    res = {"evaluations": 0, "distinct_nontrivial": 0, "rule": "", "samples": [], "distribution": {}, "mismatches": [], "failures": []}
+    env, bad = prepare(pid)
+    if env is None:
+        res["mismatches"].append(bad)
+        return res
+    try:
+        scen, units = plan(ctx, pid, scenarios)
+        recs = [record(env, sc, seed, pm, scale) for (sc, seed, pm, scale) in units]
+        judge(env, recs, res)
+    finally:
+        release(env)
+    if res["evaluations"] <= 0 and not res["mismatches"]:
+        res["mismatches"].append({"kind": "floor", "what": "word-transition conformance judged no transition at all",
+                                  "detail": "%d recording runs requested" % len(units)})
+    res["failures"] = res["failures"][:20]
+    res["rule"] = ("word-transition conformance: scenarios %s of harness/c01_lanewords.c (each in its own process, %d run(s) requested, %d judged, "
+                   "perturbation 20/0/40 %% of atomic operations by seed index); every compare-and-swap attempt, every single atomic operation "
+                   "and every give-up on the dq_state of every queue created is evaluated in Coq on the src2v function registered for its source line "
+                   "(Gen_dqstate.dqstate_site_table, LaneWords.check_commit/check_giveup); unobserved parameters: thread id and queue width exact, "
+                   "others over the finite domains of lib/lanewords.py (trusted), `owned` over its whole admissible form when the proposals miss; per "
+                   "queue the successful operations must chain from the initial to the final value; FAIL lines of the harness's own oracles are "
+                   "failures of this property; a run that hits a time limit / the no-progress watchdog / is dumped while active is repeated once "
+                   "alone (ten times the limit) and the first run listed as inconclusive; evaluations = transitions judged, distinct = distinct Coq cases"
+                   % (", ".join(scen), len(units), res["distribution"].get("recording_runs_judged", 0)))
+    return res
+
+
+def replay(ctx, sub):
+    """re-execute what a replay file recorded for the `words` part: sub = {"failures": [...], "broken": [{"what", "detail": mismatch}]}.
+    Each entry's scenario is run again with the recorded seed / permille / scale against the current build and judged again;
+    a transition mismatch is in addition re-judged as recorded (site, old, new, axes) on the current Gen_dqstate.
+    1 = something reproduces, 0 = everything was executed and nothing reproduces, 2 = an entry could not be executed"""
+    entries = [dict(f, _from="failure") for f in sub.get("failures", [])]
+    for b in sub.get("broken", []):
+        dt = b.get("detail") if isinstance(b, dict) else None
+        entries.append(dict(dt, _from="broken") if isinstance(dt, dict) else {"what": str(b), "_from": "broken"})
+    if not entries:
+        print("words: nothing recorded for this part")
+        return 2
+    pid = getattr(ctx, "pid", None)
+    env, bad = prepare(pid)
+    if env is None:
+        print("words: cannot prepare (%s): %s" % (bad["what"], str(bad["detail"])[-400:]))
+        return 2
+    reproduced, unexecuted, seen = False, False, {}
+    try:
+        for e in entries:
+            print("recorded [words/%s]: %s | %s" % (e.get("kind", "?"), e.get("what"), str(e.get("detail", ""))[:300]))
+            if not all(k in e for k in ("scenario", "seed", "permille", "scale")):
+                print("  nothing to re-execute for this entry (%s): only a full ./check re-establishes it" % e.get("kind", "no recorded run"))
+                unexecuted = True
+                continue
+            unit = (e["scenario"], int(e["seed"]), int(e["permille"]), int(e["scale"]))
+
+            def matches(r):
+                if e["_from"] == "failure":
+                    return [x for x in r["failures"] if x.get("key") == e.get("key")] or [x for x in r["failures"] if x.get("kind") == e.get("kind")]
+                return [x for x in r["mismatches"] if x.get("kind") == e.get("kind") and x.get("fn") == e.get("fn") and x.get("site") == e.get("site")]
+            # the schedule is not replayable: the recorded unit is repeated (same seed / permille / scale) until it shows the
+            # recorded problem, at most REPLAY_RUNS times; runs are shared between the entries of one unit
+            again, exercised, n = [], 0, 0
+            while not again and n < REPLAY_RUNS:
+                if len(seen.setdefault(unit, [])) <= n:
+                    r = {"evaluations": 0, "distinct_nontrivial": 0, "rule": "", "samples": [], "distribution": {}, "mismatches": [], "failures": []}
+                    judge(env, [record(env, *unit)], r)
+                    seen[unit].append(r)
+                r = seen[unit][n]
+                n += 1
+                pf = r["distribution"].get("per_function", {}).get(e.get("fn"), {})
+                exercised += sum(pf.values()) if pf else 0
+                again = matches(r)
+                print("  re-run %d of scenario %s seed %d perturbation %d scale %d: %d transitions judged, %d mismatches, %d failures" % (
+                    (n,) + unit + (r["evaluations"], len(r["mismatches"]), len(r["failures"]))))
+            for x in again[:3]:
+                print("  REPRODUCES in the re-run:", x.get("what"), "|", str(x.get("detail", x.get("line", "")))[:300])
+            hit = bool(again)
+            c = e.get("case")
+            if e.get("kind") == "transition" and isinstance(c, dict) and c.get("axes"):
+                # the recorded word against the CURRENT Gen_dqstate: settles the translator side (a repaired translation conforms
+                # now); it cannot settle the library side (the word was written by the build that was recorded), the re-runs do
+                call = case_call(env["file_id"], c["kindname"], c["file"], c["line"], c["kind"], c["old"], c.get("new"), c.get("recd") or [])
+                ax = tuple(a if isinstance(a, str) else tuple(a) for a in c["axes"])
+                try:
+                    v = evaluate("lanewords_%s_replay" % env["tag"], [(call, ax)])[0]
+                    print("  the recorded transition itself (%s:%d %s old %d -> %s; parameters %s) on the current Gen_dqstate: verdict %d (%s)" % (
+                        c["file"], c["line"], c["kindname"], c["old"], c.get("new") if c["kindname"] == "commit" else c.get("recd"),
+                        ", ".join(c.get("params", [])), v, "conforms now" if v == 1 else "still does not conform"))
+                except CoqUnavailable as ex:
+                    print("  the recorded transition could not be evaluated:", str(ex)[-300:])
+            if not hit and e.get("kind") == "transition" and exercised == 0:
+                print("  %d re-runs never exercised %s: nothing concluded for this entry" % (n, e.get("fn")))
+                unexecuted = True
+                continue
+            if not hit and e.get("kind") == "transition":
+                print("  the current build exercised %s %d times in %d re-run(s), every transition conforming" % (e.get("fn"), exercised, n))
+            if not hit:
+                print("  does not reproduce")
+            reproduced = reproduced or hit
+    finally:
+        release(env)
+    return 1 if reproduced else (2 if unexecuted else 0)
 
 
 def merge(a, b):
